@@ -80,7 +80,12 @@ func (p *frameParser) ParseNext() (frame, error) {
 		case 0x1:
 			return &headersFrame{Length: l}, nil
 		case 0x4:
-			return parseSettingsFrame(p.r, l)
+			f, err := parseSettingsFrame(p.r, l)
+			if err != nil {
+				// parseSettingsFrame reports its own short read as io.EOF
+				return nil, p.truncated(err)
+			}
+			return f, nil
 		case 0x3: // CANCEL_PUSH
 		case 0x5: // PUSH_PROMISE
 		case 0x7: // GOAWAY
